@@ -19,7 +19,7 @@ import sys
 
 ID = "C03"
 LEVEL = "fault_enumeration"
-RULE = ("sessions of 1..6 puts (key sizes 1/17/255, value sizes 0/1/100/8191/8192/8193/70000) through UKVFile('a') and "
+RULE = ("sessions of 1..6 puts (key sizes 0/1/17/255, value sizes 0/1/100/8191/8192/8193/70000) through UKVFile('a') and "
         "through Collection.writing() with bufsize in {-1,0,4096,1e6}, on files with 0..3 committed records; crash points: "
         "every byte prefix of the session's byte stream (exhaustive; stride-with-edges inside values > 300 bytes in the "
         "quick tier), second crash inside the recovery session (edges + seeded offsets), real SIGKILL at the n-th raw "
@@ -62,7 +62,11 @@ def plan(tier, seed):
 
 def make_session(rng, big_ok=True):
     """-> (committed records, session records); keys unique"""
+    empty_key_at = rng.randrange(0, 14)        # in about half of the sessions one record has the (legal) empty key
+
     def key(i, tag):
+        if i == empty_key_at:
+            return b""
         ks = rng.choice(KEYSIZES)
         if ks == 1:
             return bytes([(65 if tag == "p" else 97) + i])
@@ -84,6 +88,8 @@ def make_session(rng, big_ok=True):
         k = key(i, tag)
         used.add(k)
         size = rng.choice(VALSIZES if big_ok and bigs < 1 else VALSIZES[:-1])
+        if k == b"" and rng.random() < 0.5:
+            size = 0                            # ... and sometimes an empty value as well: a record of five zero bytes
         if size == 70000:
             bigs += 1
         (committed if i < ncommit else sess).append((k, val(size, salt + i)))
